@@ -91,32 +91,42 @@ Qed.
 (* ---- uniq under maps that keep key, keyedness and whitespace ------------------------------ *)
 Lemma uniq_map (f : centry -> centry) l :
   (forall e, keyed (f e) = keyed e /\ c_key (f e) = c_key e /\
-             is_white (f e) = is_white e /\ (is_white e = true -> c_id (f e) = c_id e)) ->
+             is_white (f e) = is_white e /\ (is_white e = true -> c_id (f e) = c_id e) /\
+             is_section (f e) = is_section e) ->
   uniq l -> uniq (map f l).
 Proof.
-  intros Hf [H1 H2]. split.
+  intros Hf (H1 & H2 & H3). split; [|split].
   - assert (E : map c_key (filter keyed (map f l)) = map c_key (filter keyed l)).
-    { clear H1 H2. induction l as [|e l IH]; cbn; [reflexivity|].
+    { clear H1 H2 H3. induction l as [|e l IH]; cbn; [reflexivity|].
       destruct (Hf e) as (F1 & F2 & _). rewrite F1. destruct (keyed e); cbn; rewrite IH, ?F2; reflexivity. }
     rewrite E. exact H1.
   - assert (E : map c_id (filter is_white (map f l)) = map c_id (filter is_white l)).
-    { clear H1 H2. induction l as [|e l IH]; cbn; [reflexivity|].
-      destruct (Hf e) as (_ & _ & F3 & F4). rewrite F3. destruct (is_white e) eqn:Ew; cbn; rewrite IH; [|reflexivity].
+    { clear H1 H2 H3. induction l as [|e l IH]; cbn; [reflexivity|].
+      destruct (Hf e) as (_ & _ & F3 & F4 & _). rewrite F3. destruct (is_white e) eqn:Ew; cbn; rewrite IH; [|reflexivity].
       rewrite (F4 eq_refl). reflexivity. }
     rewrite E. exact H2.
+  - assert (E : map c_key (filter is_section (map f l)) = map c_key (filter is_section l)).
+    { clear H1 H2 H3. induction l as [|e l IH]; cbn; [reflexivity|].
+      destruct (Hf e) as (_ & F2 & _ & _ & F5). rewrite F5. destruct (is_section e); cbn; rewrite IH, ?F2; reflexivity. }
+    rewrite E. exact H3.
 Qed.
 
 Lemma is_entity_keyed e : is_entity e = true -> keyed e = true /\ is_white e = false.
 Proof.
-  unfold is_entity, keyed, is_comment, is_white. destruct (c_kind e); try discriminate; auto.
+  unfold is_entity, keyed, is_comment, is_white, is_section. destruct (c_kind e); try discriminate; auto.
 Qed.
+
+Lemma is_entity_nosection e : is_entity e = true -> is_section e = false.
+Proof. unfold is_entity, is_section. destruct (c_kind e); try discriminate; auto. Qed.
 
 Lemma placeholder_facts e :
   keyed (placeholder e) = keyed e /\ c_key (placeholder e) = c_key e /\
-  is_white (placeholder e) = is_white e /\ (is_white e = true -> c_id (placeholder e) = c_id e).
+  is_white (placeholder e) = is_white e /\ (is_white e = true -> c_id (placeholder e) = c_id e) /\
+  is_section (placeholder e) = is_section e.
 Proof.
-  unfold placeholder. destruct (is_entity e) eqn:E; [|auto].
-  apply is_entity_keyed in E. destruct E as [E1 E2]. rewrite E1, E2. cbn. repeat split.
+  unfold placeholder. destruct (is_entity e) eqn:E; [|auto 6].
+  pose proof (is_entity_nosection e E) as E3.
+  apply is_entity_keyed in E. destruct E as [E1 E2]. rewrite E1, E2, E3. cbn. repeat split.
   intros; discriminate.
 Qed.
 
@@ -143,7 +153,7 @@ Proof. unfold is_entity, is_cent. destruct (c_kind e); try discriminate; reflexi
 
 Lemma is_cent_entity e : is_cent e = true -> is_entity e = true /\ is_placeholder e = false /\ keyed e = true.
 Proof.
-  unfold is_entity, is_cent, is_placeholder, keyed, is_comment, is_white.
+  unfold is_entity, is_cent, is_placeholder, keyed, is_comment, is_white, is_section.
   destruct (c_kind e); try discriminate; auto.
 Qed.
 
@@ -245,8 +255,9 @@ Proof. apply uniq_map; [apply placeholder_facts|exact Href]. Qed.
 
 Lemma san_facts e :
   keyed (san e) = keyed e /\ c_key (san e) = c_key e /\
-  is_white (san e) = is_white e /\ (is_white e = true -> c_id (san e) = c_id e).
-Proof. unfold san. destruct (should_placeholder refkeys nd e); [apply placeholder_facts|auto]. Qed.
+  is_white (san e) = is_white e /\ (is_white e = true -> c_id (san e) = c_id e) /\
+  is_section (san e) = is_section e.
+Proof. unfold san. destruct (should_placeholder refkeys nd e); [apply placeholder_facts|auto 6]. Qed.
 
 Lemma OL_uniq : uniq OL.
 Proof. apply uniq_map; [apply san_facts|exact Hold]. Qed.
@@ -415,13 +426,16 @@ Qed.
 
 Lemma NL_uniq : uniq NL.
 Proof.
-  pose proof NL_cent as Hc. split.
+  pose proof NL_cent as Hc. split; [|split].
   - rewrite (filter_all keyed).
     + apply (new_entities_nodup _ rm_key nd NL Hnd HNL).
     + eapply Forall_impl; [|exact Hc]. cbn. intros a Ha. apply is_cent_entity in Ha. apply Ha.
   - rewrite (filter_none is_white); [constructor|].
     eapply Forall_impl; [|exact Hc]. cbn. intros a Ha. apply is_cent_nonwhite in Ha.
     unfold nonwhite in Ha. destruct (is_white a); [discriminate|reflexivity].
+  - rewrite (filter_none is_section); [constructor|].
+    eapply Forall_impl; [|exact Hc]. cbn. intros a Ha. apply is_cent_entity in Ha.
+    apply is_entity_nosection. apply Ha.
 Qed.
 
 Definition Nw := parse_resource NL.
